@@ -1056,6 +1056,7 @@ def run(ctx):
     ]
     ctx.audit_tree(["Model/Resample.v", "Proofs/ResampleP.v", "Props/C17.v"])
     ctx.prove_static("Props/C17.v", timeout=600)
+    tie_failure = thin_translation(ctx)
     if not ctx.quick:
         coqchk(ctx)
     rng = random.Random(ctx.seed * 15485863 + 17)
@@ -1185,7 +1186,50 @@ def run(ctx):
     if mism and nfail == 0:
         ctx.violation("correspondence", "model with the recorded draws and implementation disagree",
                       {"mode": "mismatch", "cases": [list(map(str, m)) for m in mism[:10]]}, found_input=False)
+    # the description of thin.py no longer satisfies the side condition of the generic theorems and none of the
+    # searches above produced a concrete failing input
+    if tie_failure and not ctx.violations:
+        ctx.violation("obligation", "T-resample: " + tie_failure["what"], tie_failure, found_input=False)
 
+
+
+def thin_translation(ctx):
+    """T-resample: regenerate the description of bermuda/utils/thin.py and of method_moments._sort_x_on_y_rank
+    (build/<ID>/GenResample.v), compute the side conditions thin_spec_ok / rank_spec_ok for it and instantiate the
+    generic theorems (coq/GenProps/C17_gen.v).
+    Returns None, or a dict saying why the tie failed (reported by run() after its searches)."""
+    import difflib
+    import shutil
+
+    from harness.common import COQ, REPO
+    from translate import t_resample
+
+    ctx.audit_tree(["Model/ResampleDesc.v", "Proofs/ResampleDescP.v", "GenProps/C17_gen.v"])
+    name = "T-resample translation of bermuda/utils/thin.py (thin, _thin_cell) and method_moments._sort_x_on_y_rank"
+    try:
+        gen = t_resample.translate(REPO)
+        ctx.obligation(name, True)
+    except Exception as ex:  # noqa: BLE001  -- fail closed: any unrecognised shape is a failed obligation
+        ctx.obligation(name, False, repr(ex))
+        ctx.log(f"T-resample failed closed: {ex!r}")
+        return {"what": f"the translator does not recognise the source: {ex!r}"[:400], "mode": "t-resample"}
+    (ctx.build / "GenResample.v").write_text(gen)
+    rc, out = ctx.coqc(ctx.build / "GenResample.v", timeout=120)
+    ctx.obligation("GenResample.v compiles", rc == 0, out)
+    if rc != 0:
+        return {"what": "the generated description does not compile", "mode": "t-resample", "coqc": out[-600:]}
+    shutil.copy(COQ / "GenProps" / "C17_gen.v", ctx.build / "C17_gen.v")
+    ok, out = ctx.prove(ctx.build / "C17_gen.v", timeout=300)
+    if ok:
+        return None
+    exp = COQ / "GenExpected" / "GenResample.v"
+    diff = []
+    if exp.exists():
+        diff = [ln for ln in difflib.unified_diff(exp.read_text().splitlines(), gen.splitlines(), "expected", "generated",
+                                                  lineterm="", n=0)][:40]
+    ctx.log("description of thin.py differs from the one the theorems need:\n" + "\n".join(diff))
+    return {"what": "thin_spec_ok / rank_spec_ok is false for the description extracted from thin.py / method_moments.py (or an instantiation fails)",
+            "mode": "t-resample", "description_diff": diff, "coqc": out[-600:]}
 
 
 def coqchk(ctx):
@@ -1200,6 +1244,13 @@ def coqchk(ctx):
 
 
 def replay(ctx, data):
+    if data.get("mode") == "t-resample":
+        # no concrete input: re-run the translator and the generated obligations on the current source
+        r = thin_translation(ctx)
+        print("T-resample / thin_spec_ok on the current source:", "ok" if r is None else r["what"])
+        for ln in (r or {}).get("description_diff", [])[:20]:
+            print("  ", ln)
+        return 0 if r is None else 1
     if data.get("mode") == "probe_field_subset":
         class _C:
             def violation(self, *a, **k):
